@@ -33,6 +33,11 @@ ALL_TAGS = (T_NCA_LG, T_NCA_FIT, T_MLKR_LG, T_MLKR_FIT, T_LMNN_LG, T_LMNN_FIT)
 VAL_RTOL = 1e-7      # value comparison: the library uses the ||a||^2+||b||^2-2ab expansion and logsumexp, the oracle explicit differences
 GRAD_RTOL = 1e-5     # gradient vs central finite difference
 DESC_RTOL = 1e-9     # "not worse" comparisons of independently evaluated objectives
+# NCA / MLKR: read "max_iter = 0" as "zero optimiser iterations" (the quantifier says max_iter >= 0, DESIGN.md assumes the
+# L-BFGS-B contract maxiter=0 => x_out = x0).  scipy's L-BFGS-B performs one iteration when maxiter=0, so this clause fires on
+# the unchanged tree under its own clause name / signature ('<learner> max_iter=0: components_ != initialisation ...').
+# With False only the literal statement is demanded: optimiser reports nit = 0 => components_ == initialisation.
+STRICT_MAX_ITER0 = True
 
 
 # ----------------------------------------------------------------------------------------------------------------------
@@ -161,12 +166,12 @@ def transformations(rng, d, count):
   for t in range(count):
     k = 1 + (t * 7 + 3) % d if t % 2 else d
     if t == 0:
-      yield 'identity[%dx%d]' % (k, d), np.eye(k, d)
+      yield '#0 identity[%dx%d]' % (k, d), np.eye(k, d)
     elif t == 1:
-      yield 'zero[%dx%d]' % (k, d), np.zeros((k, d))
+      yield '#1 zero[%dx%d]' % (k, d), np.zeros((k, d))
     else:
       s = (0.1, 0.5, 1.0, 2.0)[t % 4]
-      yield 'randn*%g[%dx%d]' % (s, k, d), rng.randn(k, d) * s
+      yield '#%d randn*%g[%dx%d]' % (t, s, k, d), rng.randn(k, d) * s
 
 
 def jsonable(**kw):
@@ -367,19 +372,13 @@ def check_lbfgs_fit(ml, learner, ds, iname, init, n_components, max_iter, rs, pr
     return dict(tag='%s.fit-not-worse-than-init' % low, observed='fit raised %s: %s' % (type(e).__name__, e), input=inp,
                 signature='%s.fit raises on well-formed input (init=%s)' % (learner, iname))
   comp = np.asarray(est.components_, dtype=float)
-  o_init, o_fit = objective(init0, X, y), objective(comp, X, y)
-  slack = DESC_RTOL * (1.0 + abs(o_init))
-  if not better(o_fit + (slack if learner == 'NCA' else -slack), o_init):
-    return dict(tag='%s.fit-not-worse-than-init' % low, input=inp,
-                observed='%s: at components_ %r, at the documented initialisation %r' % (word, o_fit, o_init),
-                signature='%s.fit returns a transformation worse than the initialisation' % learner)
   if len(log) == 1:
     rec = log[0]
     # the optimiser starts at the documented initialisation and its result is what is stored
-    if rec['x0'].shape != (init0.size,) or not np.array_equal(rec['x0'], init0.ravel()):
+    if rec['x0'].size != init0.size or not np.array_equal(rec['x0'].ravel(), init0.ravel()):
       return dict(tag='%s.zero-iterations-give-init' % low, input=inp,
                   observed='x0 handed to minimize differs from the documented initialisation: max diff %r'
-                           % (float(np.abs(rec['x0'] - init0.ravel()).max()) if rec['x0'].size == init0.size else 'shape'),
+                           % (float(np.abs(rec['x0'].ravel() - init0.ravel()).max()) if rec['x0'].size == init0.size else 'shape'),
                   signature='%s.fit does not start the optimiser at the documented initialisation' % learner)
     # the function that drives the optimiser is the (negated) documented objective
     for M in (init0, probe_L):
@@ -389,15 +388,24 @@ def check_lbfgs_fit(ml, learner, ds, iname, init, n_components, max_iter, rs, pr
         return dict(tag='%s.fit-minimises-documented-objective' % low, input=dict(inp, L=M.tolist()),
                     observed='function handed to minimize returns %r, %s documented objective is %r' % (v, 'the negated' if drive_sign < 0 else 'the', want),
                     signature='%s.fit hands the optimiser a function that is not the %sdocumented objective' % (learner, 'negated ' if drive_sign < 0 else ''))
+  o_init, o_fit = objective(init0, X, y), objective(comp, X, y)
+  slack = DESC_RTOL * (1.0 + abs(o_init))
+  if not better(o_fit + (slack if learner == 'NCA' else -slack), o_init):
+    return dict(tag='%s.fit-not-worse-than-init' % low, input=inp,
+                observed='%s: at components_ %r, at the documented initialisation %r' % (word, o_fit, o_init),
+                signature='%s.fit returns a transformation worse than the initialisation' % learner)
+  if len(log) == 1:
+    rec = log[0]
     if rec['nit'] == 0 and not np.array_equal(comp, init0):
       return dict(tag='%s.zero-iterations-give-init' % low, input=inp,
                   observed='optimiser reports nit=0 but components_ differs from the initialisation by %r' % float(np.abs(comp - init0).max()),
                   signature='%s zero reported iterations but components_ != initialisation' % learner)
-  if max_iter == 0 and (comp.shape != init0.shape or not np.array_equal(comp, init0)):
+  if STRICT_MAX_ITER0 and max_iter == 0 and (comp.shape != init0.shape or not np.array_equal(comp, init0)):
+    import scipy
     nit = log[0]['nit'] if len(log) == 1 else None
     return dict(tag='%s.max_iter0-gives-init' % low, input=inp,
-                observed='max_iter=0: components_ differs from the documented initialisation (max |diff| %.3g); the optimiser reports nit=%r'
-                         % (float(np.abs(comp - init0).max()) if comp.shape == init0.shape else float('nan'), nit),
+                observed='max_iter=0: components_ differs from the documented initialisation (max |diff| %.3g); the optimiser (scipy %s L-BFGS-B, maxiter=0) reports nit=%r'
+                         % (float(np.abs(comp - init0).max()) if comp.shape == init0.shape else float('nan'), scipy.__version__, nit),
                 signature='%s max_iter=0: components_ != initialisation (L-BFGS-B ran nit=%r)' % (learner, nit))
   return None
 
@@ -499,7 +507,7 @@ def check_lmnn_fit(ml, ds, iname, init, n_components, max_iter, learn_rate, rs):
 def cases(tier, seed):
   ml = repo()
   quick = tier == 'quick'
-  n_L = 8 if quick else 50
+  n_L = 16 if quick else 50
   for ds in datasets(tier, seed):
     rng = np.random.RandomState((seed * 7919 + ds['idx'] * 104729 + 17) % (2 ** 31 - 1))
     # value and gradient at random L
@@ -546,6 +554,15 @@ def cases(tier, seed):
 
 
 def run(tier, seed):
+  try:      # tiny matrices: BLAS threads only cost time
+    from threadpoolctl import threadpool_limits
+  except Exception:
+    return _run(tier, seed)
+  with threadpool_limits(limits=1):
+    return _run(tier, seed)
+
+
+def _run(tier, seed):
   n = 0
   vio = []
   per_sig = {}
@@ -573,7 +590,7 @@ def run(tier, seed):
                    'learn_rate 1e-7..10}; distinct = distinct (learner, dataset, L or fit configuration); all are non-trivial (n >= 8 points, >= 2 classes)',
               bound='%d datasets, d in 2..5, n in 4d..30, 2..4 classes, n_neighbors 1..3, regularization in {0.2, 0.35, 0.5, 0.8}, %d transformations per dataset and learner; '
                     'fits with max_iter <= %d; gradient tolerance %g relative (central differences), value tolerance %g relative'
-                    % (6 if quick else 20, 8 if quick else 50, 25 if quick else 60, GRAD_RTOL, VAL_RTOL),
+                    % (6 if quick else 20, 16 if quick else 50, 25 if quick else 60, GRAD_RTOL, VAL_RTOL),
               standin_samples=samples, violations=vio)
 
 
